@@ -532,8 +532,13 @@ impl<TC: HasRef> DirCtx<TC> {
                 } else {
                     None
                 };
+                let tamper = self.wants_exact("audit_tamper");
+                let (h2, p2) = (hashes.clone(), proof.clone());
                 let ok = akd::auditor::audit_verify::<TC>(hashes, proof).await.is_ok();
                 tr.emit(json!({"ev": "audit", "s": s, "e": e, "res": if ok {"ok"} else {"rejected"}, "roots": ids}));
+                if tamper && ok {
+                    self.audit_tampers(s, e, h2, p2, tr).await;
+                }
                 if let Some(w) = wire {
                     tr.emit(w);
                 }
@@ -542,6 +547,49 @@ impl<TC: HasRef> DirCtx<TC> {
     }
 
     /// The full observation sweep of the current state.
+    fn wants_exact(&self, k: &str) -> bool {
+        self.kinds.iter().any(|x| x == k)
+    }
+
+    /// C09: inconsistent lists and replaced digests must make audit_verify fail
+    async fn audit_tampers(&mut self, s: u64, e: u64, hashes: Vec<Digest>, proof: akd::AppendOnlyProof, tr: &mut Tracer) {
+        let mut cases: Vec<(String, u64, Vec<Digest>, akd::AppendOnlyProof)> = vec![];
+        let n = hashes.len();
+        let mut h = hashes.clone();
+        h.pop();
+        cases.push(("drop_last_hash".into(), 0, h, proof.clone()));
+        let mut h = hashes.clone();
+        h.push(hashes[n - 1]);
+        cases.push(("extra_hash".into(), 0, h, proof.clone()));
+        let mut p = proof.clone();
+        p.proofs.pop();
+        cases.push(("drop_proof".into(), 0, hashes.clone(), p));
+        let mut p = proof.clone();
+        p.epochs.pop();
+        cases.push(("drop_epoch".into(), 0, hashes.clone(), p));
+        for k in 0..n {
+            let mut h = hashes.clone();
+            h[k][7] ^= 0x40;
+            cases.push(("flip_hash_bit".into(), k as u64, h, proof.clone()));
+            for (j, other) in self.roots.clone().iter().enumerate() {
+                if *other != hashes[k] {
+                    let mut h = hashes.clone();
+                    h[k] = *other;
+                    cases.push((format!("hash_of_epoch_{j}"), k as u64, h, proof.clone()));
+                }
+            }
+        }
+        for k in 0..proof.epochs.len() {
+            let mut p = proof.clone();
+            p.epochs[k] += 1;
+            cases.push(("epoch_plus_one".into(), k as u64, hashes.clone(), p));
+        }
+        for (kind, k, h, p) in cases.into_iter() {
+            let accepted = akd::auditor::audit_verify::<TC>(h, p).await.is_ok();
+            tr.emit(json!({"ev": "audit_tamper", "s": s, "e": e, "kind": kind, "k": k, "accepted": accepted}));
+        }
+    }
+
     fn wants(&self, k: &str) -> bool {
         self.kinds.is_empty() || self.kinds.iter().any(|x| x == k)
     }
